@@ -10,7 +10,7 @@ import Operon.Model.Genome
   silence <id> <name> · activate <id> <name> · replicate <id> <inherit> <n:v,…|-> · express <id> <none|-|n,n,…> ·
   setallow <id> <0|1> · setcb <id> <cb|none> · setrate <id> <0|1>   (assignment to the public attributes
   allow_mutations / on_mutation / mutation_rate of a live genome) ·
-  getv <id> <name> · validate <id> · list <id> · diff <id> <id> · fromdict <allow> <cb|none> <rate> <n:v,…|->
+  stats <id> (get_statistics) · getv <id> <name> · validate <id> · list <id> · diff <id> <id> · fromdict <allow> <cb|none> <rate> <n:v,…|->
   Every output line: the observation, then the full state of every genome (genes and expression sorted by
   name, log in order, hash class, parent-hash class).  Hash classes number the distinct canonical lists in
   order of first appearance inside the case. -/
@@ -143,6 +143,7 @@ def showObs : Obs Nat → String
       let ls := match lv with | some x => showLevel x | none => "?"
       s!"{n}={v}:{showGType t}:{ls}:{showBool r}")
   | .assigned => "ok"
+  | .statistics s => s!"stats n{s.total} g{s.generation} m{s.mutations} a{s.approved} T{showList (s.byType.map toString)} E{showList (s.byExpr.map toString)}"
   | .diffs d => "diff " ++ showList ((d.mergeSort (fun a b => a.1 ≤ b.1)).map fun (n, a, b) =>
       let sh := fun (o : Option Nat) => match o with | some x => toString x | none => "none"
       s!"{n}:{sh a}/{sh b}")
@@ -171,6 +172,7 @@ def tagOf (st : DSt) (op : Op Nat) (o : Obs Nat) : String :=
   | .listGenes _, .listing _ => "list"
   | .diff .., .diffs [] => "diff:empty"
   | .diff .., .diffs _ => "diff:some"
+  | .stats _, .statistics _ => "stats"
   | .assign _ (.allow b), .assigned => s!"assign:allow:{showBool b}"
   | .assign _ (.cb none), .assigned => "assign:cb:none"
   | .assign _ (.cb (some _)), .assigned => "assign:cb:some"
@@ -266,6 +268,10 @@ def dstep (st : DSt) (toks : List String) : DSt × String :=
       else match c.toNat? with
         | some c => exec st (.assign i (.cb (some c)))
         | none => (st, "bad-op")
+    | none => (st, "bad-op")
+  | ["stats", i] =>
+    match i.toNat? with
+    | some i => exec st (.stats i)
     | none => (st, "bad-op")
   | ["getv", i, n] =>
     match i.toNat?, n.toNat? with
